@@ -35,6 +35,11 @@ var zzC11Scripts = []string{
 	"n = n + 1; return Meta[\"count\"] > 3 && len(keys(Meta)) == 2;",
 	// the verdict is a persistent number that every run decrements and increments again
 	"n = n + 1; open--; open++; return open;",
+	// scripts that assign nothing at all (no counter either) but still use
+	// scopes: a loop, a function call, a nested call with a loop inside
+	"foreach c in Name { if (c == \"e\") { return true; } } return false;",
+	"function f(x) { return x * 2; } return f(Count) > 6;",
+	"function has(s, ch) { foreach c in s { if (c == ch) { return true; } } return false; } function g(p) { return has(Name, \"e\") && p > 3; } return g(Count);",
 }
 
 // the verdict a sequential run gives (independent of n for these scripts,
@@ -63,6 +68,23 @@ func zzC11Want(k int, o zzC11Obj) (bool, bool) {
 		return o.Count > 3, true
 	case 8:
 		return true, true
+	case 9:
+		for i := 0; i < len(o.Name); i++ {
+			if o.Name[i] == 'e' {
+				return true, true
+			}
+		}
+		return false, true
+	case 10:
+		return o.Count*2 > 6, true
+	case 11:
+		e := false
+		for i := 0; i < len(o.Name); i++ {
+			if o.Name[i] == 'e' {
+				e = true
+			}
+		}
+		return e && o.Count > 3, true
 	}
 	return false, false // depends on the order of the calls
 }
@@ -102,7 +124,7 @@ func ZZ_C11_SharedEvaluator(sv *zzsv.T) {
 			sv.Assert("C11.shared.sequential_verdict", verdict[i] == want)
 		}
 	}
-	if k != 0 {
+	if k != 0 && k < 9 {
 		sv.Assert("C11.shared.no_lost_update", zzSame(sv, e.GetVariable("n"), zInt(int64(n))))
 	}
 }
